@@ -1413,3 +1413,29 @@ fn distribute_space_up_to_limits(
 
     space_to_distribute
 }
+
+/// Verification hooks (cfg-guarded, add-only): expose the private steps of the track sizing algorithm
+#[cfg(taffy_verif)]
+pub(super) mod verif {
+    use super::*;
+    /// `find_size_of_fr`
+    pub fn find_size_of_fr(tracks: &[GridTrack], space_to_fill: f32) -> f32 {
+        super::find_size_of_fr(tracks, space_to_fill)
+    }
+    /// `maximise_tracks`
+    pub fn maximise_tracks(
+        axis_tracks: &mut [GridTrack],
+        axis_inner_node_size: Option<f32>,
+        axis_available_grid_space: AvailableSpace,
+    ) {
+        super::maximise_tracks(axis_tracks, axis_inner_node_size, axis_available_grid_space)
+    }
+    /// `stretch_auto_tracks`
+    pub fn stretch_auto_tracks(
+        axis_tracks: &mut [GridTrack],
+        axis_min_size: Option<f32>,
+        axis_available_space_for_expansion: AvailableSpace,
+    ) {
+        super::stretch_auto_tracks(axis_tracks, axis_min_size, axis_available_space_for_expansion)
+    }
+}
